@@ -839,6 +839,25 @@ def rule_t12(ck, prog):
     body = set().union(*[b for _h, b in loops_])
     datap, lenp = f.params[1]["name"], f.params[2]["name"]
     a = C.call_args(det[0])
+    # the function may walk the line with local copies of its parameters (`char * unit = data; int remaining = len;`): a local
+    # whose only definition outside the unit loop is the parameter itself stands for it
+    def copy_of(local, param):
+        defs = []
+        for n_ in f.nodes.values():
+            if n_.k == "DeclStmt":
+                for d in n_.get("decls", []):
+                    if d["name"] == local and "init" in d:
+                        defs.append((n_, f.nodes[d["init"]]))
+        for n_, t in C.stores(f):
+            if t.get("path") == local and n_.get("op") == "=" and (n_.id not in f.where or f.where[n_.id][0].id not in body):
+                defs.append((n_, n_.child(1)))
+        return bool(defs) and all(v.strip_all_casts().get("path") == param for _n, v in defs) and \
+            not [1 for n_, t in C.stores(f) if t.get("path") == param]
+    a1, a2 = a[1].strip_all_casts().get("path"), a[2].strip_all_casts().get("path")
+    if a1 != datap and a1 and copy_of(a1, datap):
+        datap = a1
+    if a2 != lenp and a2 and copy_of(a2, lenp):
+        lenp = a2
     if a[1].strip_all_casts().get("path") != datap or a[2].strip_all_casts().get("path") != lenp:
         ck.violated("C13-T12", st, K.loc(f, det[0]), "the unit detector is run on (`%s`, `%s`), not on the line handed in (`%s`, `%s`)"
                     % (a[1].src, a[2].src, datap, lenp))
